@@ -178,7 +178,7 @@ pub fn run(a: &Args) {
                                     "bytes": hex_full(&bytes[..bytes.len().min(3000)])}));
                             }
                             Err(p) => {
-                                let ev = json!({"ev": "enc", "case": cid, "msg": msg.json(), "hdr": J::Null,
+                                let ev = json!({"ev": "enc", "case": cid, "msg": msg.json(), "hdr": hdr_json(None),
                                     "toks": [], "term": "PANIC", "rest": 0, "what": panic_text(p)});
                                 sink.emit(&ev, &json!({"case": cid, "abstract": case["want"], "msg": format!("{:?}", msg)}));
                             }
